@@ -119,7 +119,7 @@ def run_server(pos, payloads, strict, rekey=False, no_seq_reset=False, seed=0):
         sess.chan.write(b'result')
         sess.chan.exit(3)
     env['session_factory'] = lambda: P.RecSession('srv', on_start=on_start)
-    w = H.SrvWorld(seed=seed, env=env, server_factory=AsyncPwServer)
+    w = H.SrvWorld(seed=seed, env=env, server_factory=AsyncPwServer, sopts=dict(login_timeout=120))
     rp = InjectingPeer('client', strict=strict)
     rp.rand = w.rp.rand
     w.rp = rp
@@ -171,6 +171,7 @@ def run_server(pos, payloads, strict, rekey=False, no_seq_reset=False, seed=0):
         obs['stalled'] = str(exc)
     except R.RefError as exc:
         obs['ref_error'] = str(exc)
+    _expire_login(w)
     try:
         owner = w.owner
         sess = env.get('server_sessions', [])
@@ -195,6 +196,19 @@ def run_server(pos, payloads, strict, rekey=False, no_seq_reset=False, seed=0):
     return obs
 
 
+def _expire_login(w):
+    """a session that never authenticated is ended by the login timer: let it fire"""
+    try:
+        if w.conn._transport is not None and not w.conn._auth_complete:
+            for _ in range(3):
+                if w.loop.next_timer() is None:
+                    break
+                w.loop.advance()
+                w.loop.flush_all()
+    except Livelock:
+        pass
+
+
 # ------------------------------------------------------------------ client under test
 # own messages of the refpeer server: KEXINIT, ECDH_REPLY(31), NEWKEYS, SERVICE_ACCEPT,
 # FAILURE (answer to 'none'), SUCCESS (answer to password), OPEN_CONFIRMATION, CHANNEL_SUCCESS
@@ -209,7 +223,7 @@ def run_client(pos, payloads, strict, no_seq_reset=False, seed=0):
         fut = w.loop.create_future()
         pwfut['f'] = fut
         return fut
-    w = H.CliWorld(seed=seed, copts=dict(password=password, preferred_auth='password'))
+    w = H.CliWorld(seed=seed, copts=dict(password=password, preferred_auth='password', login_timeout=120))
     rp = InjectingPeer('server', strict=strict)
     rp.rand = w.rp.rand
     rp.on_message = w._on_message
@@ -267,6 +281,7 @@ def run_client(pos, payloads, strict, no_seq_reset=False, seed=0):
         obs['stalled'] = str(exc)
     except R.RefError as exc:
         obs['ref_error'] = str(exc)
+    _expire_login(w)
     try:
         owner = w.owner
         waiter = w.copt.waiter
@@ -430,7 +445,7 @@ def pair_worker(job):
             vs.append(('loop-exception', obs['loop_exc'][0]))
         if obs['stalled']:
             vs.append(('livelock', obs['stalled']))
-        if obs['injected'] and not (ok1 and ok2) and not obs['ended'] and strip(obs) != strip(base):
+        if pos != 'pre-version' and obs['injected'] and not (ok1 and ok2) and not obs['ended'] and strip(obs) != strip(base):
             if not ok1 or t1 in (2, 3, 4):
                 vs.append(('took-effect', 'pair (%d,%d) at %r: %s' % (t1, t2, pos, _diff(obs, base))))
         for kind, detail in vs:
@@ -485,13 +500,14 @@ def main(tier, seed):
         return 2
     acc = core.pmap(worker, core.rotate(jobs, seed))
     acc.merge(seqreset_checks())
-    if tier == 'thorough':
+    if True:
         pj = []
+        ptypes = PAIR_TYPES if tier == 'thorough' else [2, 4, 20, 21, 50, 52, 80, 90, 94]
         for strict in (True, False):
             for role, poss in (('server', SRV_POSITIONS), ('client', CLI_POSITIONS)):
                 for pos in poss:
-                    for t1 in PAIR_TYPES:
-                        pj.append((role, pos, strict, t1, PAIR_TYPES))
+                    for t1 in ptypes:
+                        pj.append((role, pos, strict, t1, ptypes))
         acc.merge(core.pmap(pair_worker, core.rotate(pj, seed), chunksize=4))
     rule = ('message type (1..100,192,255) x shape (well-formed, truncated, trailing byte) x position '
             '(%d server-side, %d client-side incl. pending auth request and client parked in an async '
